@@ -121,6 +121,7 @@ def rule_branch_loop(ctx):
                   f'update depends on tsc_format (control: {ctl}, data: {dat})', loc=ctx.loc(bar, s))
     ctx.floor('C12.TSCINDEP', 3, n_t)
 
+    from .c03 import expand_locals as expand_locals_
     # MARKER: a constant appended to the branch must be guarded by tsc_format, and the rest of its condition must be
     # evaluated per level (index and the level list change every iteration)
     n_m = 0
@@ -184,11 +185,17 @@ def rule_branch_loop(ctx):
             guarded = 'tsc_format' in allr
             stale = [x for t, _b in conds for x in stale_names(t)]
             perlevel = {'index', HS} <= allr or {'index'} <= allr and any(HS in reads(t) for t in pos)
+            # ... and by POSITION: the duplicated node is the last of an odd-width level, whatever the hash values are
+            expanded = ' '.join(norm(expand_locals_(bar, t)) for t in pos)
+            positional = f'len({HS})' in expanded and not any(
+                isinstance(c_, ast.Compare) and all(isinstance(x_, ast.Subscript) and norm(x_.value) == HS for x_ in [c_.left] + c_.comparators)
+                for t in pos for c_ in ast.walk(expand_locals_(bar, t)))
+            perlevel = perlevel and positional
             ctx.check(guarded and not stale and perlevel, 'C12.MARKER', ctx.key(bar, s, norm(const)),
                       'the duplicate marker is appended only when tsc_format holds and the node is the duplicated one of this level',
                       ('a constant marker can enter a classic (non-TSC) branch' if not guarded else
                        'the marker decision uses a value fixed before the level loop: ' + '; '.join(stale) if stale else
-                       'the marker decision does not depend on this level\'s index and width'), loc=ctx.loc(bar, s))
+                       'the marker decision is not a test of this level\'s index against its width (a comparison of hash values marks a genuine sibling that happens to be equal)'), loc=ctx.loc(bar, s))
     ctx.floor('C12.MARKER', 1, n_m)
     return 3 + n_t + n_m
 
@@ -425,6 +432,7 @@ def run(ctx):
     ctx.rule('C12.STALELOCAL', lambda: rule_stale_local(ctx), 2)
     from . import c11 as _c11
     ctx.rule('C12.EXTEND', lambda: _c11.rule_extend(ctx), 5)
+    ctx.rule('C12.TRUNCATE', lambda: _c11.rule_truncate(ctx, 'C12.TRUNCATE'), 2)
     ctx.rule('C12.INT', lambda: rule_int_all(ctx), 2)
     ctx.rule('C12.ONEAPPEND', lambda: rule_branch_loop(ctx), 7)
     ctx.rule('C12.ALIGN', lambda: rule_align(ctx) + rule_truncate_noop(ctx), 3)
